@@ -52,19 +52,29 @@ CONSTANTS
   OpenLimit = 2000
   EmitMod = %(mod)d
   EmitRem = %(rem)d
+  Fixed = {%(fixed)s}
 %(tail)s
 CHECK_DEADLOCK FALSE
 '''
+
+# Deviations (DEV-n of Search.tla) that have been repaired in /repo: the Design then follows the patch.
+# Empty on the unchanged tree.  When a fix for a known finding is committed, add its name here and
+# set the entry in known_findings.d/C19.json to "fixed".
+FIXED = ()
 
 KNOWN_SHAPES = ('missing:gitignore-dir-string-prefix', 'ignored-reported:gitignored-file',
                 'ignored-reported:root-module-via-syspath')
 
 
-def write_cfg(ctx, name, tail, pool='quick', dirs=3, depth=2, files=1, gi=1, lines=1, plimit=30, mod=1, rem=0):
+def write_cfg(ctx, name, tail, pool='quick', dirs=3, depth=2, files=1, gi=1, lines=1, plimit=30, mod=1, rem=0,
+              fixed=None):
+    fixed = tuple(os.environ['VERIF_C19_FIXED'].split(',')) if os.environ.get('VERIF_C19_FIXED') else \
+        (FIXED if fixed is None else fixed)
     p = os.path.join(ctx.tmp, name)
     with open(p, 'w') as f:
         f.write(CFG % dict(pool=pool, dirs=dirs, depth=depth, files=files, gi=gi, lines=lines,
-                           plimit=plimit, mod=mod, rem=rem, tail=tail))
+                           plimit=plimit, mod=mod, rem=rem, tail=tail,
+                           fixed=', '.join('"%s"' % x for x in fixed)))
     return p
 
 
@@ -310,7 +320,7 @@ def random_tree(rng, nfiles_max, forced_dir=None):
             dirs.append(d)
     alld = [[]] + dirs
     files = {}
-    nfiles = rng.randint(3, nfiles_max)
+    nfiles = rng.randint(3, nfiles_max) if nfiles_max <= 30 else rng.randint(33, nfiles_max)
     tries = 0
     while len(files) < nfiles and tries < 400:
         tries += 1
@@ -318,7 +328,7 @@ def random_tree(rng, nfiles_max, forced_dir=None):
         if forced_dir and len(files) < 2:
             d = [forced_dir]
         n = rng.choice(FILEN)
-        if len(files) >= min(nfiles, len(alld) * 4) and nfiles > 25:
+        if nfiles > 25 and len(files) >= 12:
             n = 'f%d.py' % len(files)
         p = tuple(d + [n])
         if p in files:
@@ -467,24 +477,33 @@ def run(ctx):
     #  strict_*       the strict invariants (a counterexample is expected while a finding is open)
     #  emit*          emission of cases with the Design's predictions (one worker: ordered printing)
     #  emit_limit     the parse-limit model (ParseLimit=2): invariant + emission
-    main_bounds = dict(pool='quick', dirs=3, depth=2, files=1, gi=1, lines=1) if quick else \
-        dict(pool='quick', dirs=3, depth=2, files=2, gi=1, lines=1)
+    # VERIF_C19_REDUCED=1: thorough structure with the quick bounds of the big runs (for busy machines)
+    reduced = bool(os.environ.get('VERIF_C19_REDUCED'))
+    small = quick or reduced
+    ctx.coverage['reduced_thorough'] = reduced and not quick
+    main_bounds = dict(pool='quick', dirs=3, depth=2, files=1 if small else 2, gi=1, lines=1)
     strict = [('strict_prefix', 'StrictComplete', dict(pool='quick', dirs=3, depth=2, files=0, gi=1, lines=1)),
               ('strict_file', 'StrictNoIgnoredFile', dict(pool='quick', dirs=0, depth=2, files=1, gi=1, lines=1)),
               ('strict_syspath', 'StrictNoSysPathLeak', dict(pool='quick', dirs=1, depth=1, files=1, gi=1, lines=1))]
-    mod = 211 if quick else 23
+    mod = 211 if quick else (97 if reduced else 211)
+    wmod = 97 if reduced else 47
     lmod = 3 if quick else 5
-    emit_bounds = dict(pool='quick', dirs=3, depth=2, files=1, gi=1, lines=1) if quick else \
-        dict(pool='thorough', dirs=2, depth=2, files=2, gi=1, lines=1)
-    jobs = [('main', 'INVARIANT DesignMeetsReferenceModuloKnown', 8 if quick else 12, main_bounds)]
+    emit_bounds = dict(main_bounds)
+    wide_bounds = dict(pool='thorough', dirs=1 if reduced else 2, depth=2, files=1, gi=1, lines=1)
+    INV = 'INVARIANT DesignMeetsReferenceModuloKnown'
+    jobs = [('main', INV, 8 if quick else 12, main_bounds)]
     if not quick:
-        jobs.append(('main_wide', 'INVARIANT DesignMeetsReferenceModuloKnown', 4,
-                     dict(pool='thorough', dirs=2, depth=2, files=1, gi=1, lines=2)))
+        jobs += [('main_wide', INV, 2, wide_bounds),
+                 ('main_lines', INV, 2, dict(pool='thorough', dirs=1, depth=1, files=1, gi=1, lines=2)),
+                 ('emit_wide', 'CONSTRAINT Emit', 1, dict(wide_bounds, mod=wmod, rem=ctx.seed % wmod)),
+                 # the Design with the three proposed patches applied satisfies the full Reference
+                 ('main_fixed', 'INVARIANT DesignMeetsReference', 2,
+                  dict(pool='quick', dirs=3, depth=2, files=1, gi=1, lines=1, fixed=('DEV1', 'DEV2', 'DEV4')))]
     jobs += [(n, 'INVARIANT ' + inv, 1, b) for n, inv, b in strict]
     jobs += [('emit', 'CONSTRAINT Emit', 1, dict(emit_bounds, mod=mod, rem=ctx.seed % mod)),
              ('emit_dirs', 'CONSTRAINT Emit', 1, dict(pool='quick', dirs=3, depth=2, files=0, gi=1, lines=1)),
              ('emit_small', 'CONSTRAINT Emit', 1, dict(pool='quick', dirs=1, depth=1, files=1, gi=1, lines=1)),
-             ('emit_limit', 'CONSTRAINT Emit\nINVARIANT DesignMeetsReferenceModuloKnown', 1,
+             ('emit_limit', 'CONSTRAINT Emit\n' + INV, 1,
               dict(pool='limits', dirs=1, depth=1, files=3 if quick else 4, gi=0 if quick else 1, lines=1, plimit=2,
                    mod=lmod, rem=ctx.seed % lmod))]
     runs = {}
@@ -504,14 +523,19 @@ def run(ctx):
     for n, r in runs.items():
         if isinstance(r, BaseException):
             raise r if isinstance(r, MachineryError) else MachineryError('TLC run %s failed: %r' % (n, r))
+    if 'main_fixed' in runs and not os.environ.get('VERIF_C19_FIXED'):
+        res = runs.pop('main_fixed')
+        ctx.add_tlc(res, 'repaired Design (Fixed = DEV1, DEV2, DEV4) |= Reference, no exceptions, exhaustive')
+        if res.violated:
+            raise MachineryError('Search.tla: the repaired Design violates the Reference: %s' % res.trace[-1:])
+        ctx.coverage['repaired_design_meets_reference'] = True
     for n in [k for k in runs if k.startswith('main')]:
         res = runs[n]
-        ctx.add_tlc(res, 'Design|=Reference modulo known shapes, exhaustive (%s: %s)' % (n, dict(jobs)[n] if False else
-                                                                                         [j[3] for j in jobs if j[0] == n][0]))
+        ctx.add_tlc(res, 'Design|=Reference modulo known shapes, exhaustive (%s: %s)' % (n, [j[3] for j in jobs if j[0] == n][0]))
         if res.violated:
             raise MachineryError('Search.tla: the Design deviates from the Reference in a shape that is not a known '
                                  'finding (%s); last state:\n%s' % (res.violated, res.trace[-1:]))
-    if runs['main'].distinct < (50000 if quick else 500000):
+    if runs['main'].distinct < (50000 if small else 500000):
         raise MachineryError('vacuity: only %d states' % runs['main'].distinct)
     ctx.coverage['exhaustive'] = True
     ctx.log('main run: %d distinct states in %.0fs' % (runs['main'].distinct, runs['main'].wall))
@@ -532,6 +556,9 @@ def run(ctx):
     # emitted small trees, so that they carry the Design's predictions like every other case.
     ctx.add_tlc(runs['emit'], 'case emission slice %d mod %d (%s)' % (ctx.seed % mod, mod, emit_bounds))
     cs = cases(runs['emit'])
+    if not quick:
+        ctx.add_tlc(runs['emit_wide'], 'case emission (wide pools) slice %d mod %d (%s)' % (ctx.seed % wmod, wmod, wide_bounds))
+        cs += cases(runs['emit_wide'])
     ctx.add_tlc(runs['emit_dirs'], 'case emission: all trees without python files (<=3 dirs, <=1 .gitignore)')
     cs_dirs = cases(runs['emit_dirs'])
     ctx.add_tlc(runs['emit_small'], 'case emission: all trees with <=1 dir, <=1 file, <=1 .gitignore')
@@ -546,8 +573,8 @@ def run(ctx):
     rng = ctx.rng
     rng.shuffle(cs_dirs)
     rng.shuffle(cs_small)
-    extra = cs_dirs[:60 if quick else 1500] + cs_small[:120 if quick else 896]
-    if len(cs) < (200 if quick else 3000):
+    extra = cs_dirs[:60 if quick else (200 if reduced else 1500)] + cs_small[:120 if quick else (200 if reduced else 896)]
+    if len(cs) < (200 if quick else (500 if reduced else 5000)):
         raise MachineryError('too few cases emitted: %d' % len(cs))
     allcases = [c for _, c in cex_emitted] + cs + extra
     ctx.log('replaying %d TLC trees (x %d queries x 2 listing orders + Script.search)' % (len(allcases), len(allcases[0]['preds'])))
@@ -599,7 +626,7 @@ def run(ctx):
     ctx.coverage['limit_trees_with_more_files_than_limit'] = nlimit_effective
 
     # 5. random larger trees (code -> spec)
-    nrand = 60 if quick else 700
+    nrand = 60 if quick else (150 if reduced else 700)
     ctx.log('driving %d random trees' % nrand)
     rr = jutil.pmap(random_case, [(ctx.tmp, i, ctx.seed * 100003 + i, i % 10 == 9, 24 if quick else 40)
                                   for i in range(nrand)], chunksize=1)
